@@ -75,6 +75,7 @@ class Sched:
         self.trace = []  # names of the participants in the order they ran (compressed)
         self.max_steps = 50 * max(horizon, 20000)
         self.in_pred = False
+        self.yield_now = False
         self.vclock = 0.0   # virtual wall clock for plain threads (see vsleep)
         self.sleepers = {}  # tid -> wake time
 
@@ -185,7 +186,11 @@ class Sched:
         # that a participant that was preempted stays preempted while anybody else can move - one
         # deviation buys a real preemption, not a one-step delay); then waiters that could be woken by
         # time passing (timers, pollers, the environment): those are deviations
-        en.sort(key=lambda t: (t is not me, id(t) not in truly, t.last_run, t.tid))
+        if self.yield_now:
+            # a contended lock was just released: hand over to the longest waiting participant by default
+            en.sort(key=lambda t: (id(t) not in truly, t is me, t.last_run, t.tid))
+        else:
+            en.sort(key=lambda t: (t is not me, id(t) not in truly, t.last_run, t.tid))
         return en
 
     def _fail(self, exc):
@@ -353,7 +358,13 @@ class CLock:
         self.owner = None
         s = cur()
         if s is not None:
-            s.point('unlock')
+            # fair hand-off: if somebody is waiting for this lock, the default is to let them have it
+            waiting = any(t.where == 'lock' and t.pred is not None and not t.done for t in s.threads if t is not s.me())
+            s.yield_now = waiting
+            try:
+                s.point('unlock')
+            finally:
+                s.yield_now = False
 
     def locked(self):
         return self.owner is not None
